@@ -98,10 +98,7 @@ func runPipeline(c *Case, body string) (o *pipeObs) {
 			resp.Header.Set("Location", locationFor(c.LocF[level], &hops[level+1]))
 			resp.Header.Set("Content-Type", "text/plain")
 		} else {
-			resp = &http.Response{StatusCode: c.St.Status, Header: http.Header{}, Body: io.NopCloser(strings.NewReader(body))}
-			if c.St.CT != "" {
-				resp.Header.Set("Content-Type", c.St.CT)
-			}
+			resp = pageResponse(c, body)
 		}
 		it.GetURL().SetResponse(resp)
 		if err := archiver.ProcessBody(it.GetURL(), false, false, 1, htmlTmp); err != nil {
